@@ -59,11 +59,13 @@ class C10(Prop):
                 o["backend_cookies"] = o.get("backend_cookies") or []
                 o["client_set"] = o.get("client_set") or []
         fatal_txt = out[-3000:] if fatal else ""
-        rc, out, p, dt = C.go_test_overlay(ctx.work, "./agent/sessions/", "TestVerifC10Interim$", OVERLAY, "c10i.jsonl", ctx.seed, ctx.tier, timeout=600)
-        interim = [r for r in C.read_jsonl(p) if r.get("kind") == "interim"]
-        if rc != 0 or not interim:
-            raise RuntimeError("C10 interim-response harness did not run: rc=%s\n%s" % (rc, out[-2000:]))
-        return {"histories": hs, "conc": conc, "races": races, "fatal": fatal_txt, "interim": interim}
+        rc, out, p, dt = C.go_test_overlay(ctx.work, "./agent/sessions/", "TestVerifC10(Interim|ReleaseOrder)$", OVERLAY, "c10i.jsonl", ctx.seed, ctx.tier, timeout=600)
+        rows = C.read_jsonl(p)
+        interim = [r for r in rows if r.get("kind") == "interim"]
+        release = [r for r in rows if r.get("kind") == "release-order"]
+        if rc != 0 or not interim or not release:
+            raise RuntimeError("C10 interim-response / release-order harness did not run: rc=%s\n%s" % (rc, out[-2000:]))
+        return {"histories": hs, "conc": conc, "races": races, "fatal": fatal_txt, "interim": interim, "release": release}
 
     @staticmethod
     def model_uses(h):
@@ -98,6 +100,14 @@ class C10(Prop):
             res.append(("concurrent:crash", "the handler crashed under concurrent requests", {"output": obs["fatal"]}))
         for sig, txt in obs["races"]:
             res.append((sig, "the race detector reported a data race in the session handler", {"report": txt}))
+        for r in obs.get("release") or []:
+            saw = r.get("follow_up_saw") or []
+            want = r["expected_in_follow_up"]
+            name = r["backend_set"].split("=")[0]
+            ok = (want in saw) if want else not any(c.startswith(name + "=") for c in saw)
+            if not ok:
+                res.append(("cookie-not-in-session-when-response-released", "the backend answered with Set-Cookie %r; a request of the same session made the instant that response was released reached the backend with %s" % (r["backend_set"], saw),
+                            {"driver": "TestVerifC10ReleaseOrder: the writer behind the session response writer issues a follow-up request of the session from inside WriteHeader", "observed": r}))
         for r in obs.get("interim") or []:
             b = r["backend"]
             rp = {"driver": "TestVerifC10Interim: client -> SessionHandler -> httputil.ReverseProxy -> raw backend answering %s then %s" % (b.get("interim") or "nothing", b["status"]), "observed": r}
